@@ -49,7 +49,22 @@ var (
 	grantedAt  time.Time
 	lastPos    = -1 // for detecting a step whose thread never shows up
 	lastPosAt  time.Time
+	stepPrefix []string         // Lockstep: labels (by prefix) at which goroutines wait for each other
+	stepN      int              //   how many goroutines pass such a gate together
+	stepWait   time.Duration    //   how long one waits for the others before it goes on alone
+	stepAt     = map[string]int{} //   arrivals per label
 )
+
+// Lockstep makes the goroutines which arrive at a gate whose label starts with one of the prefixes pass it n at a
+// time: each waits (at most patience) until n have arrived at that same gate. Between two such gates they run
+// freely, so that of n goroutines going through the same code each has done a step before any does the next -
+// whatever the labels of the steps are. Lockstep(nil, 0, 0) switches it off.
+func Lockstep(prefixes []string, n int, patience time.Duration) {
+	mu.Lock()
+	stepPrefix, stepN, stepWait, stepAt = prefixes, n, patience, map[string]int{}
+	mu.Unlock()
+	cond.Broadcast()
+}
 
 // Watch sets the labels a step without a label stands for ("the thread's next watched operation").
 func Watch(labels ...string) {
@@ -119,6 +134,7 @@ func Start(s []Step) {
 	mu.Lock()
 	enabled, script, pos, trace, stuck = true, s, 0, nil, ""
 	holds, held = map[string]int{}, map[string]int{}
+	stepPrefix, stepN, stepAt = nil, 0, map[string]int{}
 	finished, inSelect = map[string]bool{}, map[string]bool{}
 	grantedPos, lastPos = -1, -1
 	mu.Unlock()
@@ -184,6 +200,24 @@ func Pre(label string) {
 	}
 	g := gid()
 	th := threadOf(g, label)
+	if stepN > 1 {
+		for _, p := range stepPrefix {
+			if strings.HasPrefix(label, p) {
+				stepAt[label]++
+				mine := (stepAt[label] + stepN - 1) / stepN * stepN // the arrival count which completes my group
+				end := time.Now().Add(stepWait)
+				for enabled && stepN > 1 && stepAt[label] < mine && time.Now().Before(end) {
+					go func() { time.Sleep(2 * time.Millisecond); cond.Broadcast() }()
+					cond.Wait()
+				}
+				if stepAt[label] < mine {
+					stepAt[label] = mine // went on alone: the next arrival starts a new group
+				}
+				cond.Broadcast()
+				break
+			}
+		}
+	}
 	if holds[label] > 0 {
 		holds[label]--
 		held[label]++
